@@ -156,10 +156,35 @@ func (w *world) serve(t, k int) {
 	sort.Strings(hk)
 	body := sp.body.String()
 	if i := strings.Index(body, "</pre>"); i >= 0 && strings.Contains(body, "<h1>PANIC</h1>") {
+		// of the stack trace only this is kept: which of the per-thread panicking handlers it names
+		var names []string
+		for th := 0; th < 4; th++ {
+			if strings.Contains(body[i:], fmt.Sprintf("panicOfThread%d", th)) {
+				names = append(names, fmt.Sprint(th))
+			}
+		}
 		body = body[:i] + "</pre>[stack trace cut: it names the harness's own call stack]"
+		if len(names) > 0 {
+			body += "[per-thread panicking handlers named in it: " + strings.Join(names, ",") + "]"
+		}
 	}
 	fmt.Fprintf(&w.notes[t][k], "RESPONSE status=%d body=%q headers=%v", sp.code, body, hk)
 }
+
+// the panicking handlers of the every-request-panics scenario: one named function per thread, so that the page
+// Recovery writes for a request can be told from the page of another request by the handler its trace names
+//
+//go:noinline
+func panicOfThread0(c flamego.Context) { sched.Point(); panic("boom-marker-0") }
+
+//go:noinline
+func panicOfThread1(c flamego.Context) { sched.Point(); panic("boom-marker-1") }
+
+//go:noinline
+func panicOfThread2(c flamego.Context) { sched.Point(); panic("boom-marker-2") }
+
+//go:noinline
+func panicOfThread3(c flamego.Context) { sched.Point(); panic("boom-marker-3") }
 
 type parentService struct{ name string }
 
@@ -341,6 +366,18 @@ var scenarios = []scenario{
 		w.f.Use(flamego.Logger(), flamego.Recovery())
 		w.f.Get("/boom", func(c flamego.Context) { sched.Point(); w.own(c); panic("boom-marker") })
 		w.f.Get("/fine/{k}", func(c flamego.Context, l *log.Logger) string { sched.Point(); w.own(c); return "fine " + c.Param("k") })
+		return w
+	}},
+	{Name: "recovery,every-request-panics-in-a-handler-of-its-own", Build: func(n int) *world {
+		w := newWorld(planFor(n, func(t int) []reqSpec {
+			return []reqSpec{{"GET", fmt.Sprintf("/boom/%d", t), nil}}
+		}))
+		w.f.Use(flamego.Recovery())
+		hs := []func(c flamego.Context){panicOfThread0, panicOfThread1, panicOfThread2, panicOfThread3}
+		for t := 0; t < n && t < len(hs); t++ {
+			h := hs[t]
+			w.f.Get(fmt.Sprintf("/boom/%d", t), func(c flamego.Context) { sched.Point(); w.own(c) }, h)
+		}
 		return w
 	}},
 	{Name: "return-values+fast-path+renderer", Build: func(n int) *world {
